@@ -43,7 +43,7 @@ class Untranslatable(Exception):
 
 def src_of(node, text):
     try:
-        return ast.get_source_segment(text, node) or ast.dump(node)
+        return ast.unparse(node)
     except Exception:
         return ast.dump(node)
 
@@ -698,6 +698,582 @@ def translate_lattice(report):
     return body
 
 
+
+# ------------------------------------------------------------------------------------------------
+# atom.py: the ADP state machine (branching code -> nested `if`/`match` by symbolic execution)
+
+LATDATA_FIELDS = {n: (n, "S") for n in "a b c ca cb cg ar br cr".split()}
+LATDATA_FIELDS.update({n: (n, "M") for n in "base recbase normbase recnormbase isotropicunit metrics".split()})
+LATDATA_FIELDS["_epsilon"] = ("(AdpConst.eps : α)", "S*")   # class constant, not a field
+
+
+class Sym:
+    """symbolic executor for the methods of Atom that touch `_U`, `_anisotropy`, `lattice`.
+    State = Lean expression of type `AtomS α`; result = Lean expression."""
+
+    def __init__(self, text, helpers, consts):
+        self.text = text
+        self.helpers = helpers   # name -> ("get"|"set"|"getset", lean name, nargs)
+        self.consts = consts     # python module constant -> lean term
+
+    def bad(self, node, why):
+        raise Untranslatable("%s: `%s`" % (why, src_of(node, self.text)[:120]))
+
+    # ---- expressions ---------------------------------------------------------------------------
+    def expr(self, e, env, st):
+        """-> (lean, type); types S M V B L (LatData) OL (Option LatData)"""
+        if isinstance(e, ast.Constant):
+            v = e.value
+            if isinstance(v, bool) or not isinstance(v, (int, float)):
+                self.bad(e, "constant")
+            if float(v) == int(v) and int(v) in (0, 1, 2, 3, 8):
+                return "%d" % int(v), "S"
+            self.bad(e, "numeric constant")
+        if isinstance(e, ast.Name):
+            if e.id in env:
+                return env[e.id]
+            if e.id in self.consts:
+                return self.consts[e.id], "S"
+            self.bad(e, "unknown name")
+        if isinstance(e, ast.Attribute) and isinstance(e.value, ast.Name):
+            base, x = e.value.id, e.attr
+            if base == env.get("__self__"):
+                if ("__attr__", x) in env:
+                    return env[("__attr__", x)]
+                if x == "xyz":
+                    return "%s.xyz" % st, "V"
+                if x in ("anisotropy", "_anisotropy"):
+                    return "%s.aniso" % st, "B"
+                if x == "_U":
+                    return "%s.U" % st, "M"
+                if x == "lattice":
+                    return "%s.lat" % st, "OL"
+                if x in self.helpers and self.helpers[x][0] == "get" and self.helpers[x][2] == 0:
+                    return "(%s %s)" % (self.helpers[x][1], st), self.helpers[x][3]
+                self.bad(e, "attribute of self")
+            if base in env and env[base][1] == "L":
+                if x in LATDATA_FIELDS:
+                    f, t = LATDATA_FIELDS[x]
+                    if t == "S*":
+                        return f, "S"
+                    return "%s.%s" % (env[base][0], f), t
+                self.bad(e, "lattice attribute")
+            if base == "numpy" and x == "pi":
+                return "(AdpConst.pi : α)", "S"
+            self.bad(e, "attribute")
+        if isinstance(e, ast.BoolOp) and isinstance(e.op, ast.Or) and len(e.values) == 2:
+            # `self.lattice or cartesian_lattice`
+            a, at = self.expr(e.values[0], env, st)
+            if at == "OL" and isinstance(e.values[1], ast.Name) and e.values[1].id == "cartesian_lattice":
+                if a == "%s.lat" % st:
+                    return "%s.latOf" % st, "L"
+            self.bad(e, "or")
+        if isinstance(e, ast.UnaryOp) and isinstance(e.op, ast.Not):
+            a, at = self.expr(e.operand, env, st)
+            if at == "B":
+                return "!%s" % paren(a), "B"
+            self.bad(e, "not")
+        if isinstance(e, ast.UnaryOp) and isinstance(e.op, ast.USub):
+            a, at = self.expr(e.operand, env, st)
+            if at == "S":
+                return "-%s" % paren(a), "S"
+            self.bad(e, "negation")
+        if isinstance(e, ast.BinOp):
+            if isinstance(e.op, ast.Pow) and isinstance(e.right, ast.Constant) and e.right.value == 2:
+                a, at = self.expr(e.left, env, st)
+                if at == "S":
+                    return "%s * %s" % (paren(a), paren(a)), "S"
+                self.bad(e, "power")
+            ops = {ast.Add: "+", ast.Sub: "-", ast.Mult: "*", ast.Div: "/"}
+            if type(e.op) not in ops:
+                self.bad(e, "operator")
+            o = ops[type(e.op)]
+            a, at = self.expr(e.left, env, st)
+            b, bt = self.expr(e.right, env, st)
+            if at == "S" and bt == "S":
+                return "%s %s %s" % (lassoc(a, o), o, paren(b)), "S"
+            if at == "S" and bt == "M" and o == "*":
+                return "Mat3.smul %s %s" % (paren(a), paren(b)), "M"
+            self.bad(e, "operand types %s %s %s" % (at, o, bt))
+        if isinstance(e, ast.Subscript):
+            a, at = self.expr(e.value, env, st)
+            sl = e.slice
+            if at == "M" and isinstance(sl, ast.Tuple) and len(sl.elts) == 2:
+                ij = [self.index(k, env) for k in sl.elts]
+                if None not in ij:
+                    return "%s.a%d%d" % (paren(a), ij[0] + 1, ij[1] + 1), "S"
+            self.bad(e, "subscript")
+        if isinstance(e, ast.Call):
+            fn = e.func
+            name = None
+            if isinstance(fn, ast.Name):
+                name = fn.id
+            elif isinstance(fn, ast.Attribute) and isinstance(fn.value, ast.Name):
+                name = "%s.%s" % (fn.value.id, fn.attr)
+            if name == "abs" and len(e.args) == 1:
+                a, at = self.expr(e.args[0], env, st)
+                if at == "S":
+                    return "absα %s" % paren(a), "S"
+            if name == "bool" and len(e.args) == 1:
+                a, at = self.expr(e.args[0], env, st)
+                if at == "B":
+                    return a, "B"
+            if name == "numpy.trace" and len(e.args) == 1:
+                a, at = self.expr(e.args[0], env, st)
+                if at == "M":
+                    return "%s.trace" % paren(a), "S"
+            if name == "numpy.transpose" and len(e.args) == 1:
+                a, at = self.expr(e.args[0], env, st)
+                if at == "M":
+                    return "%s.transpose" % paren(a), "M"
+            if name == "numpy.dot" and len(e.args) == 2:
+                a, at = self.expr(e.args[0], env, st)
+                b, bt = self.expr(e.args[1], env, st)
+                if (at, bt) == ("M", "M"):
+                    return "%s.mul %s" % (paren(a), paren(b)), "M"
+                if (at, bt) == ("V", "M"):
+                    return "Mat3.vecMul %s %s" % (paren(a), paren(b)), "V"
+            if isinstance(fn, ast.Attribute) and isinstance(fn.value, ast.Name) and fn.value.id == env.get("__self__") \
+                    and fn.attr in self.helpers and self.helpers[fn.attr][0] == "get" and not e.keywords:
+                kind, lean, nargs, rett = self.helpers[fn.attr]
+                # _get_Uij(i, j) with constant indices: specialised definitions
+                idx = [self.index(a, env) for a in e.args]
+                if nargs == len(e.args) and None not in idx:
+                    return "(%s_%s %s)" % (lean, "".join(str(k) for k in idx), st), rett
+            self.bad(e, "call")
+        if isinstance(e, ast.Compare) and len(e.ops) == 1:
+            a, at = self.expr(e.left, env, st)
+            b, bt = self.expr(e.comparators[0], env, st)
+            if isinstance(e.ops[0], ast.Lt) and at == "S" and bt == "S":
+                return "%s < %s" % (paren(a), paren(b)), "P"
+            self.bad(e, "comparison")
+        self.bad(e, "expression")
+
+    def index(self, e, env):
+        if isinstance(e, ast.Constant) and isinstance(e.value, int) and 0 <= e.value < 3:
+            return e.value
+        if isinstance(e, ast.Name) and isinstance(env.get(e.id), tuple) and env[e.id][1] == "I":
+            return env[e.id][0]
+        return None
+
+    def static(self, e, env):
+        """value of a condition over constant indices (`i == j != 0`), or None"""
+        if isinstance(e, ast.Compare):
+            vals = [self.index(x, env) if not (isinstance(x, ast.Constant) and isinstance(x.value, int)) else x.value
+                    for x in [e.left] + e.comparators]
+            if None in vals:
+                return None
+            ok = True
+            for (a, b), op in zip(zip(vals, vals[1:]), e.ops):
+                if isinstance(op, ast.Eq):
+                    ok = ok and a == b
+                elif isinstance(op, ast.NotEq):
+                    ok = ok and a != b
+                else:
+                    return None
+            return ok
+        return None
+
+    # ---- statements ----------------------------------------------------------------------------
+    def block(self, stmts, env, st, mode, lets):
+        """continuation style; returns Lean expression.  mode 'set' -> state, 'get' -> value, 'getset' -> pair"""
+        if not stmts:
+            return self.finish(None, env, st, mode, lets)
+        s, rest = stmts[0], stmts[1:]
+        if isinstance(s, ast.Expr) and isinstance(s.value, ast.Constant) and isinstance(s.value.value, str):
+            return self.block(rest, env, st, mode, lets)
+        if isinstance(s, ast.Return):
+            return self.finish(s.value, env, st, mode, lets)
+        if isinstance(s, ast.If):
+            return self.branch(s, rest, env, st, mode, lets)
+        if isinstance(s, ast.Expr) and isinstance(s.value, ast.Call):
+            c = s.value
+            name = ast.unparse(c.func)
+            # numpy.multiply(self._U[0, 0], lat.isotropicunit, out=self._U)
+            if name == "numpy.multiply" and len(c.args) == 2 and len(c.keywords) == 1 and c.keywords[0].arg == "out" \
+                    and ast.unparse(c.keywords[0].value) == "%s._U" % env["__self__"]:
+                a, at = self.expr(c.args[0], env, st)
+                b, bt = self.expr(c.args[1], env, st)
+                if (at, bt) == ("S", "M"):
+                    return self.assign_U("Mat3.smul %s %s" % (paren(a), paren(b)), rest, env, st, mode, lets)
+            # self._set_Uij(i, j, v)
+            if isinstance(c.func, ast.Attribute) and isinstance(c.func.value, ast.Name) and c.func.value.id == env["__self__"] \
+                    and c.func.attr in self.helpers and self.helpers[c.func.attr][0] == "set":
+                kind, lean, nargs, _ = self.helpers[c.func.attr]
+                idx = [self.index(a, env) for a in c.args[:-1]]
+                v, vt = self.expr(c.args[-1], env, st)
+                if None not in idx and vt == "S" and len(c.args) == nargs:
+                    new = "(%s_%s %s %s)" % (lean, "".join(str(k) for k in idx), st, paren(v))
+                    return self.with_state(new, rest, env, mode, lets)
+            self.bad(s, "call statement")
+        if isinstance(s, ast.AugAssign) and isinstance(s.op, ast.Mult) and ast.unparse(s.target) == "%s._U" % env["__self__"]:
+            v, vt = self.expr(s.value, env, st)
+            if vt == "S":
+                return self.assign_U("%s.U.scaleR %s" % (st, paren(v)), rest, env, st, mode, lets)
+        if isinstance(s, ast.Assign) and len(s.targets) == 1:
+            tg = s.targets[0]
+            tsrc = ast.unparse(tg)
+            me = env["__self__"]
+            if isinstance(tg, ast.Name):
+                v, vt = self.expr(s.value, env, st) if not self.is_self_U_getter(s.value, env) else (None, None)
+                if v is None:
+                    # x = self.U  (the getter rewrites the storage)
+                    kind, lean, nargs, rett = self.helpers["U"]
+                    lets2 = lets + ["let r_%s := %s %s" % (tg.id, lean, st)]
+                    env2 = dict(env)
+                    env2[tg.id] = ("r_%s.1" % tg.id, "M")
+                    return self.block(rest, env2, "r_%s.2" % tg.id, mode, lets2)
+                ln = "v_" + tg.id
+                env2 = dict(env)
+                env2[tg.id] = (ln, vt)
+                return "let %s := %s\n%s" % (ln, v, self.block(rest, env2, st, mode, lets))
+            if tsrc == "%s._U" % me:
+                if self.is_self_U_getter(s.value, env):
+                    kind, lean, nargs, rett = self.helpers["U"]
+                    return self.with_state("(%s %s).2" % (lean, st), rest, env, mode, lets)
+                v, vt = self.expr(s.value, env, st)
+                if vt == "M":
+                    return self.assign_U(v, rest, env, st, mode, lets)
+            if tsrc == "%s._U[:]" % me:
+                v, vt = self.expr(s.value, env, st)
+                if vt == "M":
+                    return self.assign_U(v, rest, env, st, mode, lets)
+            if isinstance(tg, ast.Subscript) and ast.unparse(tg.value) == "%s._U" % me and isinstance(tg.slice, ast.Tuple):
+                ij = [self.index(k, env) for k in tg.slice.elts]
+                v, vt = self.expr(s.value, env, st)
+                if None not in ij and len(ij) == 2 and vt == "S":
+                    return self.assign_U("{ %s.U with a%d%d := %s }" % (st, ij[0] + 1, ij[1] + 1, v), rest, env, st, mode, lets)
+            if tsrc == "%s.U" % me and "U" in self.helpers:
+                # assignment through the property: the right-hand side may read `self.U` (the storage-rewriting getter)
+                reads = any(self.is_self_U_getter(n, env) for n in ast.walk(s.value))
+                r = "r%d" % self.counter()
+                env2 = dict(env)
+                st2 = st
+                pre = ""
+                if reads:
+                    pre = "let %s := %s %s\n" % (r, self.helpers["U"][1], st)
+                    env2[("__attr__", "U")] = ("%s.1" % r, "M")
+                    st2 = "%s.2" % r
+                v, vt = self.expr(s.value, env2, st2)
+                if vt == "M":
+                    return pre + self.with_state("Src.setU %s %s" % (st2, paren(v)), rest, env, mode, lets)
+            if tsrc == "%s.xyz" % me:
+                v, vt = self.expr(s.value, env, st)
+                if vt == "V":
+                    return self.with_state("{ %s with xyz := %s }" % (st, v), rest, env, mode, lets)
+            if tsrc == "%s._anisotropy" % me:
+                v, vt = self.expr(s.value, env, st)
+                if vt == "B":
+                    return self.with_state("{ %s with aniso := %s }" % (st, v), rest, env, mode, lets)
+            if tsrc == "%s.Uisoequiv" % me and "Uisoequiv_set" in self.helpers:
+                v, vt = self.expr(s.value, env, st)
+                if vt == "S":
+                    return self.with_state("(%s %s %s)" % (self.helpers["Uisoequiv_set"][1], st, paren(v)), rest, env, mode, lets)
+        self.bad(s, "statement")
+
+    def is_self_U_getter(self, e, env):
+        return isinstance(e, ast.Attribute) and isinstance(e.value, ast.Name) and e.value.id == env["__self__"] and e.attr == "U"
+
+    def with_state(self, new, rest, env, mode, lets):
+        k = len(lets) + sum(1 for _ in rest) * 0
+        name = "s%d" % (self.counter())
+        return "let %s : AtomS α := %s\n%s" % (name, new, self.block(rest, env, name, mode, lets))
+
+    def assign_U(self, val, rest, env, st, mode, lets):
+        return self.with_state("{ %s with U := %s }" % (st, val), rest, env, mode, lets)
+
+    _n = 0
+
+    def counter(self):
+        Sym._n += 1
+        return Sym._n
+
+    def finish(self, value, env, st, mode, lets):
+        if mode == "set":
+            if value is not None:
+                self.bad(value, "setter returns a value")
+            return st
+        if value is None:
+            raise Untranslatable("getter falls off the end")
+        if mode == "getset" and self.is_self_state_U(value, env):
+            return "(%s.U, %s)" % (st, st)
+        v, vt = self.expr(value, env, st)
+        if mode == "getset":
+            return "(%s, %s)" % (v, st)
+        return v
+
+    def is_self_state_U(self, e, env):
+        return ast.unparse(e) == "%s._U" % env["__self__"]
+
+    def branch(self, s, rest, env, st, mode, lets):
+        t = s.test
+        me = env["__self__"]
+        # `if self.lattice is None:` -> match, binding the lattice in the other branch
+        if isinstance(t, ast.Compare) and len(t.ops) == 1 and isinstance(t.ops[0], ast.Is) and ast.unparse(t.left) == "%s.lattice" % me \
+                and isinstance(t.comparators[0], ast.Constant) and t.comparators[0].value is None:
+            a = self.block(s.body + rest, env, st, mode, lets)
+            # in the else branch `lat = self.lattice` binds the value
+            els = s.orelse + rest
+            env2 = dict(env)
+            if els and isinstance(els[0], ast.Assign) and len(els[0].targets) == 1 and isinstance(els[0].targets[0], ast.Name) \
+                    and ast.unparse(els[0].value) == "%s.lattice" % me:
+                env2[els[0].targets[0].id] = ("l", "L")
+                els = els[1:]
+            b = self.block(els, env2, st, mode, lets)
+            return "match %s.lat with\n| none => %s\n| some l => %s" % (st, indent(a), indent(b))
+        # `if bool(value) is self._anisotropy: return`
+        if isinstance(t, ast.Compare) and len(t.ops) == 1 and isinstance(t.ops[0], ast.Is):
+            a_, at = self.expr(t.left, env, st)
+            b_, bt = self.expr(t.comparators[0], env, st)
+            if at == "B" and bt == "B":
+                cond = "%s == %s" % (paren(a_), paren(b_))
+                x = self.block(s.body + rest, env, st, mode, lets)
+                y = self.block(s.orelse + rest, env, st, mode, lets)
+                return "if %s then %s\nelse %s" % (cond, indent(x), indent(y))
+        # conjunction with a static part: `not self._anisotropy and i == j != 0`
+        conds = t.values if isinstance(t, ast.BoolOp) and isinstance(t.op, ast.And) else [t]
+        dyn = []
+        for c in conds:
+            sv = self.static(c, env)
+            if sv is True:
+                continue
+            if sv is False:
+                return self.block(s.orelse + rest, env, st, mode, lets)
+            dyn.append(c)
+        if not dyn:
+            return self.block(s.body + rest, env, st, mode, lets)
+        parts = []
+        for c in dyn:
+            v, vt = self.expr(c, env, st)
+            if vt not in ("B", "P"):
+                self.bad(c, "condition type")
+            parts.append((v, vt))
+        if len(parts) == 1:
+            cond = parts[0][0]
+        elif all(vt == "B" for _, vt in parts):
+            cond = " && ".join(paren(v) for v, _ in parts)
+        else:
+            self.bad(t, "mixed condition")
+        x = self.block(s.body + rest, env, st, mode, lets)
+        y = self.block(s.orelse + rest, env, st, mode, lets)
+        return "if %s then %s\nelse %s" % (cond, indent(x), indent(y))
+
+
+def indent(txt):
+    lines = txt.split("\n")
+    if len(lines) == 1:
+        return txt
+    return "\n" + "\n".join("    " + ln for ln in lines)
+
+
+ATOM_SECTION = ("section\nvariable {α : Type} [Add α] [Mul α] [Sub α] [Neg α] [Div α] [OfNat α 0] [OfNat α 1]\n"
+                "  [OfNat α 2] [OfNat α 3] [OfNat α 8] [LT α] [DecidableLT α] [Elem α] [AdpConst α]\n\n")
+
+
+def translate_atom(report):
+    path = os.path.join(REPO, "src", "diffpy", "structure", "atom.py")
+    text = open(path, encoding="utf-8").read()
+    tree = ast.parse(text)
+    cls = find_class(tree, "Atom")
+    info = {"methods": {}, "untranslatable": {}}
+    out = []
+    helpers = {}
+    consts = {}
+    Sym._n = 0
+
+    def attempt(name, fn_):
+        try:
+            fn_()
+            info["methods"][name] = True
+        except Untranslatable as e:
+            info["untranslatable"][name] = str(e)
+            out.append("def %s_untranslatable : String := %s\n\n" % (name, lean_str(str(e))))
+
+    def emit(name, params, rett, body, doc):
+        out.append("/-- %s -/\ndef %s %s : %s :=\n%s\n\n" % (doc, name, params, rett, "\n".join("  " + ln for ln in body.split("\n"))))
+
+    # module constants _BtoU, _UtoB
+    def do_consts():
+        sym = Sym(text, {}, consts)
+        for n in tree.body:
+            if isinstance(n, ast.Assign) and len(n.targets) == 1 and isinstance(n.targets[0], ast.Name) and n.targets[0].id in ("_BtoU", "_UtoB"):
+                v, vt = sym.expr(n.value, {"__self__": None}, "s")
+                nm = n.targets[0].id.strip("_")
+                out.append("/-- `%s = %s` -/\ndef %s : α := %s\n\n" % (n.targets[0].id, ast.unparse(n.value), nm, v))
+                consts[n.targets[0].id] = "(Src.%s : α)" % nm
+        if set(consts) != {"_BtoU", "_UtoB"}:
+            raise Untranslatable("constants _BtoU/_UtoB not found")
+
+    attempt("constants", do_consts)
+
+    def find_prop(name, kind):
+        """FunctionDef of a @property getter / @x.setter"""
+        for n in cls.body:
+            if isinstance(n, ast.FunctionDef) and n.name == name:
+                decs = [ast.unparse(d) for d in n.decorator_list]
+                if kind == "get" and "property" in decs:
+                    return n
+                if kind == "set" and ("%s.setter" % name) in decs:
+                    return n
+        raise Untranslatable("%s %s not found" % (name, kind))
+
+    def run(fn, mode, extra_env=None):
+        sym = Sym(text, helpers, consts)
+        env = {"__self__": fn.args.args[0].arg}
+        env.update(extra_env or {})
+        return sym.block(fn.body, env, "s", mode, [])
+
+    # Uisoequiv getter
+    def do_uiso_get():
+        fn = find_prop("Uisoequiv", "get")
+        emit("uisoequiv", "(s : AtomS α)", "α", run(fn, "get"), "`Atom.Uisoequiv` getter")
+        helpers["Uisoequiv"] = ("get", "Src.uisoequiv", 0, "S")
+
+    attempt("uisoequiv", do_uiso_get)
+
+    # U getter (rewrites the storage) / setter
+    def do_U_get():
+        fn = find_prop("U", "get")
+        emit("getU", "(s : AtomS α)", "Mat3 α × AtomS α", run(fn, "getset"), "`Atom.U` getter: value and the state it leaves")
+        helpers["U"] = ("getset", "Src.getU", 0, "M")
+
+    attempt("getU", do_U_get)
+
+    def do_U_set():
+        fn = find_prop("U", "set")
+        emit("setU", "(s : AtomS α) (p_value : Mat3 α)", "AtomS α", run(fn, "set", {fn.args.args[1].arg: ("p_value", "M")}), "`Atom.U` setter")
+
+    attempt("setU", do_U_set)
+
+    # _get_Uij / _set_Uij specialised to the six index pairs used by the properties (and their mirror images)
+    pairs = [(0, 0), (1, 1), (2, 2), (0, 1), (0, 2), (1, 2)]
+
+    def do_get_uij():
+        fn = find_func(cls.body, "_get_Uij")
+        if fn is None or [a.arg for a in fn.args.args][1:] != ["i", "j"]:
+            raise Untranslatable("_get_Uij(self, i, j) not found")
+        for i, j in pairs:
+            emit("get_Uij_%d%d" % (i, j), "(s : AtomS α)", "α", run(fn, "get", {"i": (i, "I"), "j": (j, "I")}), "`Atom._get_Uij(%d, %d)`" % (i, j))
+        helpers["_get_Uij"] = ("get", "Src.get_Uij", 2, "S")
+
+    attempt("get_Uij", do_get_uij)
+
+    def do_set_uij():
+        fn = find_func(cls.body, "_set_Uij")
+        if fn is None or [a.arg for a in fn.args.args][1:] != ["i", "j", "value"]:
+            raise Untranslatable("_set_Uij(self, i, j, value) not found")
+        for i, j in pairs:
+            emit("set_Uij_%d%d" % (i, j), "(s : AtomS α) (p_value : α)", "AtomS α",
+                 run(fn, "set", {"i": (i, "I"), "j": (j, "I"), "value": ("p_value", "S")}), "`Atom._set_Uij(%d, %d, value)`" % (i, j))
+        helpers["_set_Uij"] = ("set", "Src.set_Uij", 3, None)
+
+    attempt("set_Uij", do_set_uij)
+
+    # Uisoequiv setter
+    def do_uiso_set():
+        fn = find_prop("Uisoequiv", "set")
+        emit("setUiso", "(s : AtomS α) (p_value : α)", "AtomS α", run(fn, "set", {fn.args.args[1].arg: ("p_value", "S")}), "`Atom.Uisoequiv` setter")
+        helpers["Uisoequiv_set"] = ("set", "Src.setUiso", 1, None)
+
+    attempt("setUiso", do_uiso_set)
+
+    # anisotropy setter
+    def do_aniso():
+        fn = find_prop("anisotropy", "set")
+        emit("setAniso", "(s : AtomS α) (p_value : Bool)", "AtomS α", run(fn, "set", {fn.args.args[1].arg: ("p_value", "B")}), "`Atom.anisotropy` setter")
+
+    attempt("setAniso", do_aniso)
+
+    # Uij / Bij properties: the lambdas, as (name, getter text, setter text) and translated B getters/setters
+    def do_props():
+        rows = []
+        for n in cls.body:
+            if isinstance(n, ast.Assign) and len(n.targets) == 1 and isinstance(n.targets[0], ast.Name) \
+                    and isinstance(n.value, ast.Call) and ast.unparse(n.value.func) == "property" and len(n.value.args) >= 2 \
+                    and n.targets[0].id[0] in "UB" and n.targets[0].id[1:].isdigit():
+                nm = n.targets[0].id
+                g, st_ = n.value.args[0], n.value.args[1]
+                rows.append((nm, ast.unparse(g.body), ast.unparse(st_.body)))
+                if nm[0] == "B":
+                    sym = Sym(text, helpers, consts)
+                    gv, gt = sym.expr(g.body, {"__self__": g.args.args[0].arg}, "s")
+                    emit("get_%s" % nm, "(s : AtomS α)", "α", gv, "`Atom.%s` getter" % nm)
+                    body = sym.block([ast.Expr(value=st_.body)], {"__self__": st_.args.args[0].arg, st_.args.args[1].arg: ("p_value", "S")}, "s", "set", [])
+                    emit("set_%s" % nm, "(s : AtomS α) (p_value : α)", "AtomS α", body, "`Atom.%s` setter" % nm)
+        if len(rows) != 12:
+            raise Untranslatable("expected 12 Uij/Bij properties, found %d" % len(rows))
+        out.append("/-- the Uij / Bij properties as written in the class body: (name, getter, setter) -/\n")
+        out.append("def tensorProps : List (String × String × String) := [%s]\n\n" % ",\n  ".join(
+            "(%s, %s, %s)" % (lean_str(a), lean_str(b), lean_str(c)) for a, b, c in rows))
+
+    attempt("tensorProps", do_props)
+
+    # Bisoequiv getter / setter
+    def do_biso():
+        g = find_prop("Bisoequiv", "get")
+        emit("bisoequiv", "(s : AtomS α)", "α", run(g, "get"), "`Atom.Bisoequiv` getter")
+        st_ = find_prop("Bisoequiv", "set")
+        emit("setBiso", "(s : AtomS α) (p_value : α)", "AtomS α", run(st_, "set", {st_.args.args[1].arg: ("p_value", "S")}), "`Atom.Bisoequiv` setter")
+
+    attempt("biso", do_biso)
+    report["atom"] = info
+    body = (HEADER % ("src/diffpy/structure/atom.py", "DS.Model.Adp")).replace("namespace DS.Src", "namespace DS.Src.Atom") \
+        + "open DS\n" + ATOM_SECTION + "".join(out).replace("Src.", "Src.Atom.") + "end\nend DS.Src.Atom\n"
+    return body
+
+
+
+def translate_structure(report):
+    """`Structure.placeInLattice`: the two transformation matrices and the loop body (per atom)"""
+    path = os.path.join(REPO, "src", "diffpy", "structure", "structure.py")
+    text = open(path, encoding="utf-8").read()
+    tree = ast.parse(text)
+    cls = find_class(tree, "Structure")
+    info = {"methods": {}, "untranslatable": {}}
+    out = []
+    Sym._n = 0
+    try:
+        fn = find_func(cls.body, "placeInLattice")
+        if fn is None:
+            raise Untranslatable("placeInLattice not found")
+        me, newlat = [a.arg for a in fn.args.args]
+        body = [b for b in fn.body if not (isinstance(b, ast.Expr) and isinstance(b.value, ast.Constant))]
+        pre = [b for b in body if isinstance(b, ast.Assign) and isinstance(b.targets[0], ast.Name)]
+        loops = [b for b in body if isinstance(b, ast.For)]
+        post = [b for b in body if b not in pre and b not in loops]
+        if len(loops) != 1 or not (isinstance(loops[0].iter, ast.Name) and loops[0].iter.id == me) or loops[0].orelse \
+                or not isinstance(loops[0].target, ast.Name) or body.index(loops[0]) != len(pre):
+            raise Untranslatable("placeInLattice: expected assignments, one `for a in self` loop, then the lattice assignment")
+        posttxt = [ast.unparse(b) for b in post]
+        helpers = {"U": ("getset", "Src.getU", 0, "M")}
+        sym = Sym(text, helpers, {})
+        # the matrices: expressions over self.lattice (l1) and new_lattice (l2)
+        env = {"__self__": "__none__", "l1": ("l1", "L"), newlat: ("l2", "L")}
+        lets = []
+        for b in pre:
+            # self.lattice.X -> l1.X
+            val = ast.parse(ast.unparse(b.value).replace("%s.lattice." % me, "l1."), mode="eval").body
+            v, vt = sym.expr(val, env, "a")
+            if vt != "M":
+                raise Untranslatable("placeInLattice: %s is not a matrix" % b.targets[0].id)
+            env[b.targets[0].id] = ("v_" + b.targets[0].id, "M")
+            lets.append("let v_%s := %s" % (b.targets[0].id, v))
+        env["__self__"] = loops[0].target.id
+        bodytxt = sym.block(loops[0].body, env, "a", "set", [])
+        out.append("/-- `Structure.placeInLattice`: the matrices and the body of `for a in self` -/\n"
+                   "def placeAtomBody (l1 l2 : LatData α) (a : AtomS α) : AtomS α :=\n%s\n%s\n\n" % (
+                       "\n".join("  " + x for x in lets), "\n".join("  " + x for x in bodytxt.split("\n"))))
+        out.append("/-- what follows the loop (the lattice setter re-links every atom, C08) -/\n"
+                   "def placeInLattice_after : List String := [%s]\n\n" % ", ".join(lean_str(x) for x in posttxt))
+        info["methods"]["placeInLattice"] = True
+    except Untranslatable as e:
+        info["untranslatable"]["placeInLattice"] = str(e)
+        out.append("def placeInLattice_untranslatable : String := %s\n\n" % lean_str(str(e)))
+    report["structure"] = info
+    hdr = (HEADER % ("src/diffpy/structure/structure.py", "DS.Gen.SrcAtom")).replace("namespace DS.Src", "namespace DS.Src.Structure")
+    return hdr + "open DS\n" + ATOM_SECTION + "".join(out).replace("Src.", "Src.Atom.") + "end\nend DS.Src.Structure\n"
+
+
 def write_if_changed(path, text):
     try:
         if open(path, encoding="utf-8").read() == text:
@@ -710,10 +1286,14 @@ def write_if_changed(path, text):
     return True
 
 
-def main(outdir=OUTDIR, report_path=None, groups=("lattice",)):
+def main(outdir=OUTDIR, report_path=None, groups=("lattice", "atom", "structure")):
     report = {}
     if "lattice" in groups:
         write_if_changed(os.path.join(outdir, "SrcLattice.lean"), translate_lattice(report))
+    if "atom" in groups:
+        write_if_changed(os.path.join(outdir, "SrcAtom.lean"), translate_atom(report))
+    if "structure" in groups:
+        write_if_changed(os.path.join(outdir, "SrcStructure.lean"), translate_structure(report))
     if report_path:
         with open(report_path, "w") as f:
             json.dump(report, f, indent=1)
